@@ -47,7 +47,7 @@ def check_probe(chk, F, cls, f, inst):
     index types do not matter."""
     import sympy as sp
     from .. import sym
-    from ..sym import Interp, Unsupported, Container, Ref
+    from ..sym import Interp, Unsupported, Container, Ref, Struct
     calls = []
     xname = f["params"][0]["name"]
     eps = sp.Symbol(f["params"][5]["name"], real=True)
@@ -62,8 +62,31 @@ def check_probe(chk, F, cls, f, inst):
             last = {}
             for key, v in xc.store:
                 last[tuple(str(k_) for k_ in key)] = (key, v)
+            def ident(a):
+                """what an argument denotes: the object behind references / addresses (helpers may rename it), else its text"""
+                try:
+                    v = I.evl(a, env)
+                except Unsupported:
+                    return pp(a)
+                hops = 0
+                while hops < 8:
+                    hops += 1
+                    if isinstance(v, tuple) and v and v[0] == "ptr":
+                        v = v[1]
+                        pre = "&"
+                        continue
+                    if isinstance(v, Ref) and v.kind == "var" and isinstance(v.env.get(v.id), (Ref, Struct, Container, tuple)):
+                        v = v.env[v.id]
+                        continue
+                    break
+                if isinstance(v, (Struct, Container)):
+                    return ("obj", id(v), getattr(v, "name", ""))
+                if isinstance(v, Ref) and v.kind == "var":
+                    return ("var", v.id)
+                return pp(a) if not isinstance(v, sp.Basic) else ("val", str(v))
             calls.append({"x": xc.name, "origin": getattr(xc, "copy_of", (xc.name, None))[0], "store": list(last.values()), "grad": gc.name if isinstance(gc, Container) else str(gc),
-                          "rest": [pp(a) for a in e["args"][2:]], "seq": I.tick(), "depth": len(I.loop_stack), "line": e.get("line")})
+                          "rest": [ident(a) for a in e["args"][2:]], "addr": [pp(a).startswith("&") for a in e["args"][2:]],
+                          "seq": I.tick(), "depth": len(I.loop_stack), "line": e.get("line")})
             if isinstance(gc, Container):
                 I.record(gc.name, ("*",), "=", ("opaque", "gradient of evaluation %d" % len(calls)), e)
                 gc.bump()
@@ -122,11 +145,12 @@ def check_probe(chk, F, cls, f, inst):
     chk.ob("C19-R1", "%s%s numerical(i) = (c+ - c-) / (2 eps)" % (cls, inst), okf, where, "numerical[i] = %s" % (ne[0].value if ne else None), construct="%s/checkGradients%s/formula" % (cls, inst))
     # R2
     rests = {tuple(c["rest"][:3]) for c in calls}
-    pnames = [p_["name"] for p_ in f["params"][1:4]]
-    chk.ob("C19-R2", "%s%s all %d evaluations use the caller's three functors in order" % (cls, inst, len(calls)), len(rests) == 1 and list(next(iter(rests))) == pnames and len(calls) >= 3, where, str(rests),
-           construct="%s/checkGradients%s/functors" % (cls, inst))
+    want_f = [env[p_["id"]] for p_ in f["params"][1:4]]
+    want_ids = [("obj", id(v_), getattr(v_, "name", "")) if isinstance(v_, (Struct, Container)) else ("var", p_["id"]) for v_, p_ in zip(want_f, f["params"][1:4])]
+    chk.ob("C19-R2", "%s%s all %d evaluations use the caller's three functors in order" % (cls, inst, len(calls)), len(rests) == 1 and list(next(iter(rests))) == want_ids and len(calls) >= 3, where,
+           "%s (the caller's: %s)" % (rests, want_ids), construct="%s/checkGradients%s/functors" % (cls, inst))
     wsargs = {c["rest"][3] if len(c["rest"]) > 3 else None for c in calls}
-    chk.ob("C19-R2", "%s%s all evaluations use the same workspace" % (cls, inst), len(wsargs) == 1 and None not in wsargs and str(next(iter(wsargs))).startswith("&"), where, str(wsargs),
+    chk.ob("C19-R2", "%s%s all evaluations use the same workspace" % (cls, inst), len(wsargs) == 1 and None not in wsargs and isinstance(next(iter(wsargs)), tuple) and next(iter(wsargs))[0] == "obj", where, str(wsargs),
            construct="%s/checkGradients%s/workspace" % (cls, inst))
     final = [c for c in calls if c["depth"] == 0]
     okx = bool(probe) and all(c["x"] != xname and c["grad"] not in {d["grad"] for d in final} for c in probe)
@@ -145,10 +169,10 @@ def check_primary(chk, F, cls, f):
     P = {p["name"]: "$p%d" % k for k, p in enumerate(f["params"])}
     X, EPS, TOL = "$p0", "$p5", "$p6"
     loops = [s for s in f["body"]["body"] if s.get("k") == "for"]
-    if len(loops) != 1:
-        raise Broken("checkGradients: expected one perturbation loop")
-    lp = loops[0]
-    iv = lp["init"]
+    # the walk below only collects the result formulas for R3 (R1 / R2 are decided on the interpreted probe loop); when the
+    # probe loop lives in a helper there is nothing loop-specific to bind here
+    lp = loops[0] if len(loops) == 1 else {"k": "block", "body": []}
+    iv = lp["init"] if len(loops) == 1 else {"id": -1}
     sc.bind_opaque(iv["id"], "%i")
     # locals: the perturbed copy, the result struct, the workspace alias
     xt = None
@@ -159,9 +183,7 @@ def check_primary(chk, F, cls, f):
                 xt = s
             elif s.get("bind") == "alias":
                 sc.bind_local(s)
-    if xt is None:
-        raise Broken("checkGradients: perturbed copy of x not found")
-    sc.bind_opaque(xt["id"], "%xtemp")
+    sc.bind_opaque(xt["id"] if xt is not None else -2, "%xtemp")
     comp = "%xtemp[%i]"
     calls = []
     viol = []
